@@ -195,7 +195,6 @@ Proof.
 Qed.
 
 (* ---- matchExactRegex: ^ body $ with text anchors matches exactly the listed whole strings ---- *)
-Definition exact_set (vals : list text) : list text := match vals with [] => [[]] | _ => vals end.
 
 Lemma last_app_one {A} (l : list A) (x d : A) : last (l ++ [x]) d = x.
 Proof. induction l as [|a l IH]; [reflexivity|]. cbn. destruct (l ++ [x]) eqn:E; [destruct l; discriminate|]. exact IH. Qed.
@@ -261,7 +260,7 @@ Qed.
 Theorem match_exact_spec re vals :
   match_exact re = Some vals ->
   exists f body, re = RConcat f (RBeginText :: body ++ [REndText]) /\
-    ((body = [] /\ vals = []) \/ (body <> [] /\ match_regex (RConcat f body) = Some vals)).
+    ((body = [] /\ vals = [[]]) \/ (body <> [] /\ match_regex (RConcat f body) = Some vals)).
 Proof.
   unfold match_exact. destruct re as [| | |f subs| | | | | |]; try discriminate.
   destruct (length subs <? 2)%nat eqn:El; [discriminate|]. destruct subs as [|s0 rest]; [discriminate|].
@@ -275,16 +274,12 @@ Proof.
 Qed.
 
 Theorem exact_matches re vals :
-  match_exact re = Some vals -> vals <> [] \/ (exists f, re = RConcat f [RBeginText; REndText]) ->
-  forall s, match_string re s = true <-> In s (exact_set vals).
+  match_exact re = Some vals -> forall s, match_string re s = true <-> In s vals.
 Proof.
-  intros H Hne s. destruct (match_exact_spec re vals H) as [f [body [-> [[-> ->]|[Hb Hm]]]]].
+  intros H s. destruct (match_exact_spec re vals H) as [f [body [-> [[-> ->]|[Hb Hm]]]]].
   - rewrite anchored_spec. cbn. rewrite is_nil_true. split; [intros ->; left; reflexivity|intros [E|[]]; congruence].
   - rewrite anchored_spec. destruct (match_regex_spec (RConcat f body) vals Hm) as [Hf Hl].
-    rewrite <- (mb_concat f body [] s []). rewrite (mb_lang (RConcat f body) Hf [] s []), Hl.
-    destruct vals as [|v vals]; [|reflexivity].
-    destruct Hne as [Hne|[f' E]]; [congruence|]. injection E as _ E2. destruct body as [|b0 body]; [congruence|].
-    cbn in E2. injection E2 as _ E3. destruct body; discriminate E3.
+    rewrite <- (mb_concat f body [] s []). rewrite (mb_lang (RConcat f body) Hf [] s []), Hl. reflexivity.
 Qed.
 
 (* ---- RewriteRegexConditions preserves the value of every typed condition ---- *)
@@ -300,8 +295,6 @@ Hypothesis Henv : env_ok orc G m.
 (* the two views of Go's regexp package agree on the patterns that are rewritten: MatchString is what the model's
    semantics says about the parsed-and-simplified tree (validated exhaustively on short strings by the harness) *)
 Hypothesis Hlink : forall p re vals s, syn p = Some re -> match_exact re = Some vals -> o_re_match orc p s = match_string re s.
-(* the parser produces no empty class and no empty alternation: a rewritten pattern with no literal is exactly ^$ *)
-Hypothesis Hproper : forall p re, syn p = Some re -> match_exact re = Some [] -> exists f, re = RConcat f [RBeginText; REndText].
 
 Lemma existsb_In s vals : existsb (text_eqb s) vals = true <-> In s vals.
 Proof.
@@ -323,19 +316,17 @@ Proof.
   - rewrite (IH _ (b0 && negb (text_eqb s v))); [rewrite negb_orb, andb_assoc; reflexivity|]. cbn [eval]. rewrite H0, Hl. reflexivity.
 Qed.
 
-Lemma eval_build_eq op l s vals : is_regex_op op = true -> eval orc ifd m l = VString s ->
+Lemma eval_build_eq op l s vals : is_regex_op op = true -> eval orc ifd m l = VString s -> vals <> [] ->
   eval orc ifd m (build_eq op l vals) =
-  VBool (if tok_eqb op EQREGEX then existsb (text_eqb s) (exact_set vals) else negb (existsb (text_eqb s) (exact_set vals))).
+  VBool (if tok_eqb op EQREGEX then existsb (text_eqb s) vals else negb (existsb (text_eqb s) vals)).
 Proof.
-  intros Hop Hl. destruct op; try discriminate; unfold build_eq; cbn [tok_eqb tok_code Z.eqb Pos.eqb].
-  - destruct vals as [|v0 [|v1 vs]].
-    + cbn [eval exact_set existsb]. rewrite Hl. cbn. rewrite orb_false_r. reflexivity.
-    + cbn [eval exact_set existsb]. rewrite Hl. cbn. rewrite orb_false_r. reflexivity.
-    + cbn [eval exact_set]. rewrite (eval_or_chain l s Hl (v1 :: vs) _ (text_eqb s v0)); [reflexivity|]. cbn [eval]. rewrite Hl. reflexivity.
-  - destruct vals as [|v0 [|v1 vs]].
-    + cbn [eval exact_set existsb]. rewrite Hl. cbn. rewrite orb_false_r. reflexivity.
-    + cbn [eval exact_set existsb]. rewrite Hl. cbn. rewrite orb_false_r. reflexivity.
-    + cbn [eval exact_set]. rewrite (eval_and_chain l s Hl (v1 :: vs) _ (negb (text_eqb s v0))); [|cbn [eval]; rewrite Hl; reflexivity].
+  intros Hop Hl Hne. destruct op; try discriminate; unfold build_eq; cbn [tok_eqb tok_code Z.eqb Pos.eqb].
+  - destruct vals as [|v0 [|v1 vs]]; [congruence| |].
+    + cbn [eval existsb]. rewrite Hl. cbn. rewrite orb_false_r. reflexivity.
+    + cbn [eval]. rewrite (eval_or_chain l s Hl (v1 :: vs) _ (text_eqb s v0)); [reflexivity|]. cbn [eval]. rewrite Hl. reflexivity.
+  - destruct vals as [|v0 [|v1 vs]]; [congruence| |].
+    + cbn [eval existsb]. rewrite Hl. cbn. rewrite orb_false_r. reflexivity.
+    + cbn [eval]. rewrite (eval_and_chain l s Hl (v1 :: vs) _ (negb (text_eqb s v0))); [|cbn [eval]; rewrite Hl; reflexivity].
       cbn [existsb]. rewrite !negb_orb. reflexivity.
 Qed.
 
@@ -363,12 +354,13 @@ Proof.
     destruct r'; try exact Hdef.
     destruct (syn r) as [re|] eqn:Es; [|exact Hdef].
     destruct (match_exact re) as [vals|] eqn:Em; [|exact Hdef].
+    destruct vals as [|v0 vals'] eqn:Ev; [exact Hdef|]. rewrite <- Ev in *.
+    assert (Hne : vals <> []) by (rewrite Ev; discriminate). clear Ev.
     destruct (typed_string e1 E1) as [s Hs].
-    rewrite (eval_build_eq op _ s vals Eop); [|rewrite IHe1; exact Hs].
+    rewrite (eval_build_eq op _ s vals Eop); [|rewrite IHe1; exact Hs|exact Hne].
     cbn [eval]. rewrite Hs, <- IHe2. cbn [eval].
-    assert (Hset : o_re_match orc r s = existsb (text_eqb s) (exact_set vals)).
-    { rewrite (Hlink r re vals s Es Em). apply bool_of_iff. rewrite existsb_In. apply exact_matches; [exact Em|].
-      destruct vals; [right; apply (Hproper r re Es Em)|left; discriminate]. }
+    assert (Hset : o_re_match orc r s = existsb (text_eqb s) vals).
+    { rewrite (Hlink r re vals s Es Em). apply bool_of_iff. rewrite existsb_In. apply exact_matches. exact Em. }
     destruct op; try discriminate; cbn [eval_bin tok_eqb tok_code Z.eqb Pos.eqb]; rewrite Hset; reflexivity.
   - (* ParenExpr *) cbn [eval]. apply (IHe ty0 Ht).
 Qed.
